@@ -272,3 +272,53 @@ Proof.
   intros H E ->. destruct (other_exn_only_from_oracle chk cs s E) as (_ & c & Hc).
   destruct (H c) as [A|A]; rewrite Hc in A; discriminate.
 Qed.
+
+(* ---------- 1c7ed70: a statement without '=' is a ParserError — no foreign exception is left ---------- *)
+Lemma parse_statements_err_own chk cs stmts : forall acc pb e,
+  parse_statements chk cs stmts acc pb = PErr e ->
+  own_error e \/ (e = OtherError /\ cs = true /\ exists c, chk c = ChkOtherExn).
+Proof.
+  induction stmts as [|st rest IH]; intros acc pb e; cbn [parse_statements]; [discriminate|].
+  destruct (parse_equation_M st) as [syms|pe|] eqn:Ep; [| |discriminate].
+  - destruct cs; [|apply IH].
+    destruct (check_codes chk (codes_of syms)) eqn:Ec; [apply IH|apply IH|].
+    intros H; inversion H; subst.
+    destruct (check_codes_raise _ _ _ Ec) as [->|(-> & c & _ & Hc)]; [left; left; reflexivity|right; eauto].
+  - intros H; inversion H; subst. left. exact (parse_equation_M_own _ _ Ep).
+Qed.
+
+(* every exception of parse_model's model, for EVERY input string, both settings of check_syntax and every oracle:
+   one of the parser's three own errors, or the oracle's own foreign exception (an exception of compile() outside
+   SyntaxError / ValueError / RecursionError / MemoryError / OverflowError), and that only with the check on *)
+Theorem parse_model_errors_own chk cs s e :
+  parse_model_M chk cs s = PErr e ->
+  own_error e \/ (e = OtherError /\ cs = true /\ exists c, chk c = ChkOtherExn).
+Proof.
+  unfold parse_model_M. destruct (split_M s) as [stmts serr] eqn:Es.
+  destruct (parse_statements chk cs stmts [] false) as [[by_eq pb]|pe|] eqn:Ep; [| |discriminate].
+  - destruct serr as [se|].
+    + intros H; inversion H; subst. left. destruct (split_M_err _ _ _ Es) as [->| ->]; unfold own_error; auto.
+    + destruct pb; [intros H; inversion H; left; left; reflexivity|].
+      destruct (merge_symbols by_eq) eqn:Em; cbn; [discriminate|].
+      intros H; inversion H; subst. left.
+      assert (W : forall l x, In l by_eq -> In x l -> wf_symbol x = true).
+      { eapply parse_statements_wf; [|exact Ep]. intros l x []. }
+      destruct (merge_symbols_err _ _ W Em) as [->| ->]; unfold own_error; auto.
+  - intros H; inversion H; subst. exact (parse_statements_err_own _ _ _ _ _ _ Ep).
+Qed.
+
+(* own errors only — NO guard on the script any more *)
+Theorem own_errors_always chk cs s :
+  (forall c, chk c <> ChkOtherExn) ->
+  match parse_model_M chk cs s with
+  | POk _ => True
+  | PUnmodelled => True
+  | PErr e => e = ParserError \/ e = SymbolError \/ e = IndentationError
+  end.
+Proof.
+  intros Hchk. destruct (parse_model_M chk cs s) as [syms|e|] eqn:E; [exact I| |exact I].
+  destruct (parse_model_errors_own _ _ _ _ E) as [A|(_ & _ & c & Hc)]; [exact A|]. exfalso. eapply Hchk; eauto.
+Qed.
+(* with the syntax check off there is no oracle at all: only own errors, unconditionally *)
+Theorem own_errors_nocheck chk s e : parse_model_M chk false s = PErr e -> own_error e.
+Proof. intros H. destruct (parse_model_errors_own _ _ _ _ H) as [A|(_ & B & _)]; [exact A|discriminate]. Qed.
